@@ -5,7 +5,7 @@
  *
  * input   "g <n>"      collect every n inputs            -> "ok"
  *         "s <hex>"    unmarshal_one(&st, bytes, &out, 0) with reg = NULL
- * output  "acc <consumed> <type> L=<types of st.lookup[0..], comma separated> E=<count lookup_envs> D=<count lookup_defs>:<done flags>"
+ * output  "acc <consumed> <type> L=<types of st.lookup[0..], comma separated> E=<count lookup_envs> D=<count lookup_defs>:<done flags> V=<environments_length,environments... of each def>"
  *         "rej <class>"   class = first words of the error message (as harness/C10/fuzz.c)
  */
 #include "marsh.c"
@@ -68,6 +68,13 @@ static Janet run_one(int32_t argc, Janet *argv) {
             printf("%s%s", i ? "," : "", janet_type_names[janet_type(st.lookup[i])]);
         printf(" E=%d D=%d:", (int) janet_v_count(st.lookup_envs), (int) janet_v_count(st.lookup_defs));
         for (int32_t i = 0; i < janet_v_count(st.lookup_defs_done); i++) printf("%d", (int) st.lookup_defs_done[i]);
+        /* def->environments_length and def->environments[] of every funcdef (ghost fields `envLen`, `envs` of the model) */
+        printf(" V=");
+        for (int32_t i = 0; i < janet_v_count(st.lookup_defs); i++) {
+            JanetFuncDef *d = st.lookup_defs[i];
+            printf("%s%d", i ? ";" : "", (int) d->environments_length);
+            for (int32_t j = 0; j < d->environments_length; j++) printf(",%d", (int) d->environments[j]);
+        }
         printf("\n");
     }
     janet_v_free(st.lookup_defs);
